@@ -12,6 +12,7 @@ mod confid;
 mod enc;
 mod fscomp;
 mod fuzz;
+mod header;
 mod history;
 mod integrity;
 mod keys;
@@ -70,6 +71,7 @@ fn main() {
         }
         "c09" => writer::c09_cases(&mut rng, &tier, &mut out),
         "c01" => archive::c01_cases(&mut rng, &tier, &mut out),
+        "c01-header" => header::c01_header_cases(&mut rng, &tier, &mut out),
         "keys-tester" => keys::tester(),
         "c19-tester" => derive::tester(),
         "c06" => format::c06_cases(&mut rng, &tier, &mut out),
